@@ -330,7 +330,10 @@ def drop_witnesses(R):
         witness.Witness("ignored-variant-untraceable-ok", WPRE + "#[derive(Trace, Finalize)]\nenum E {\n    A(NotTrace), //~ E0277\n    B,\n}\n",
                         "    #[rust_cc(ignore)] A(NotTrace),", "fields of a non-ignored variant must implement Trace"),
     ]
-    for w in ws:
-        ok, det = w.run(d)
+    from concurrent.futures import ThreadPoolExecutor
+    _ws = list(ws)
+    with ThreadPoolExecutor(max_workers=8) as _ex:       # independent rustc type-checks
+        _res = list(_ex.map(lambda w_: w_.run(d), _ws))
+    for w, (ok, det) in zip(_ws, _res):
         R.inst("R18.3", "witness:%s" % w.name, ok, "%s: %s" % (w.what, det), cfg="all-features")
     R.floor("R18.3", "all-features", 6, len(ws))
